@@ -1,3 +1,4 @@
 import Driver.Codec
 import Driver.Query
 import Driver.Mutate
+import Driver.Builder
